@@ -25,7 +25,9 @@ Next == /\ i <= Len(Recs)
                (* predicts the faults of re-entrant use) predicts none: the notifications the aborted call *)
                (* still owed were not delivered                                                           *)
                crash == IF r.xf > 0 THEN SetToSeq(Cases[r.c].checks \cap (RefProps \cup {"C05", "C07", "C08", "C09", "C10", "C14", "C16", "C19", "C20"})) ELSE <<>>
-               bad == MonRun(Mon0, r.steps, Cases[r.c]) \o crash IN
+               (* C18: the record carries the observations of the thread-safe form of the same history *)
+               c18 == IF "other" \in DOMAIN r /\ "C18" \in Cases[r.c].checks THEN <<"C18">> ELSE <<>>   \* the replayer found the two forms to differ
+               bad == MonRun(Mon0, r.steps, Cases[r.c]) \o crash \o c18 IN
            PrintT(ToJson([i |-> i, c |-> r.c, form |-> r.form, bad |-> bad]))
         /\ i' = i + 1
 
